@@ -16,6 +16,7 @@ use lightning_signer::bitcoin::secp256k1::{PublicKey, SecretKey};
 use lightning_signer::bitcoin::transaction::Version;
 use lightning_signer::bitcoin::{Address, Amount, CompressedPublicKey, Network, OutPoint, ScriptBuf, Sequence, Transaction, TxIn, TxOut, Txid, Witness};
 use lightning_signer::policy::error::ValidationErrorKind;
+use lightning_signer::util::clock::Clock;
 use lightning_signer::util::velocity::{VelocityControlIntervalType, VelocityControlSpec};
 use proptest::prelude::*;
 use serde::{Deserialize, Serialize};
@@ -65,6 +66,9 @@ pub enum OutKind {
     Unknown,
     /// foreign script with a path hint
     UnknownWithPath,
+    /// an address of the node's own wallet (right path) that is also on the allowlist: beneficial
+    /// once, however many reasons there are for it
+    WalletAndAllowlisted,
 }
 
 #[derive(Clone, Debug, Serialize, Deserialize, PartialEq, Eq, Hash)]
@@ -106,6 +110,11 @@ pub struct Case {
     pub repeats: u8,
     pub via_approver: bool,
     pub big_tx: bool,
+    /// retry storm: after `gap_after` repeats the clock moves on by 65 minutes (one bucket of the
+    /// daily control) and the same transaction is retried `extra` more times without any further
+    /// delay; only for transactions without channel outputs
+    #[serde(default)]
+    pub storm: Option<(u8, u8)>,
 }
 
 fn in_strat() -> impl Strategy<Value = InGen> {
@@ -130,7 +139,7 @@ fn out_strat() -> impl Strategy<Value = OutGen> {
             6 => Just(OutKind::WalletP2wpkh), 2 => Just(OutKind::WalletP2sh), 2 => Just(OutKind::WalletP2tr), 1 => Just(OutKind::WalletWrongPath),
             3 => Just(OutKind::Allowlisted), 2 => Just(OutKind::XpubDerived), 1 => Just(OutKind::XpubWrongPath),
             8 => (0u8..3, prop_oneof![10 => Just(0i8), 1 => Just(1i8), 1 => Just(-1i8)], prop::bool::weighted(0.9)).prop_map(|(c, value_delta, script_ok)| OutKind::Channel { c, value_delta, script_ok }),
-            3 => Just(OutKind::Unknown), 1 => Just(OutKind::UnknownWithPath),
+            3 => Just(OutKind::Unknown), 1 => Just(OutKind::UnknownWithPath), 3 => Just(OutKind::WalletAndAllowlisted),
         ],
         1u8..10,
     )
@@ -177,7 +186,7 @@ impl Prop for C08 {
         tier.pick(700, 15_000)
     }
     fn min_nontrivial(&self, tier: Tier) -> usize {
-        tier.pick(150, 1500)
+        tier.pick(150, 350)
     }
     fn strategy(&self, _tier: Tier) -> BoxedStrategy<Case> {
         (
@@ -197,8 +206,13 @@ impl Prop for C08 {
             1u8..4,
             prop::bool::weighted(0.3),
             prop::bool::weighted(0.03),
+            prop_oneof![9 => Just(None), 1 => (1u8..4, 24u8..32).prop_map(Some)],
         )
-            .prop_map(|(version, inputs, outputs, chans, fee, fee_velocity_sat, max_feerate, repeats, via_approver, big_tx)| Case { version, inputs, outputs, chans, fee, fee_velocity_sat, max_feerate, repeats, via_approver, big_tx })
+            .prop_map(|(version, inputs, outputs, chans, fee, fee_velocity_sat, max_feerate, repeats, via_approver, big_tx, storm)| {
+                // a storm is only interesting with a finite fee velocity limit
+                let fee_velocity_sat = if storm.is_some() { fee_velocity_sat.or(Some(2500)) } else { fee_velocity_sat };
+                Case { version, inputs, outputs, chans, fee, fee_velocity_sat, max_feerate, repeats, via_approver, big_tx, storm }
+            })
             .boxed()
     }
 
@@ -225,11 +239,34 @@ impl Prop for C08 {
         let allow_pk = CompressedPublicKey(PublicKey::from_secret_key(&secp, &SecretKey::from_slice(&[9u8; 32]).unwrap()));
         let allow_addr = Address::p2wpkh(&allow_pk, net);
         let axpub = Xpub::from_priv(&secp, &Xpriv::new_master(net, &[7u8; 32]).unwrap());
-        w.node.add_allowlist(&[format!("address:{}", allow_addr), format!("xpub:{}", axpub)]).expect("allowlist");
+        let mut allow_entries = vec![format!("address:{}", allow_addr), format!("xpub:{}", axpub)];
+        // the node's own addresses 90..96 are allowlisted as well (overlap of wallet and allowlist)
+        for idx in 90u32..96 {
+            let pk = CompressedPublicKey(wxpub.derive_pub(&secp, &path_of(idx)).unwrap().public_key);
+            allow_entries.push(format!("address:{}", Address::p2wpkh(&pk, net)));
+        }
+        w.node.add_allowlist(&allow_entries).expect("allowlist");
         let foreign = |i: u8| Address::p2wpkh(&CompressedPublicKey(PublicKey::from_secret_key(&secp, &SecretKey::from_slice(&[40 + i; 32]).unwrap())), net).script_pubkey();
 
-        let mut fee_ledger: u128 = 0;
-        for rep in 0..case.repeats {
+        // approved non-beneficial value with the time of approval; the window of the daily control is
+        // judged over 23 h (its bucket granularity is one hour), a sound lower bound
+        let mut fee_ledger: Vec<(u64, u128)> = vec![];
+        let has_chan_out = case.outputs.iter().any(|o| matches!(o.kind, OutKind::Channel { .. }));
+        let storm = if has_chan_out || case.big_tx { None } else { case.storm };
+        let total_reps: u8 = match storm {
+            Some((_, extra)) => case.repeats.saturating_add(extra),
+            None => case.repeats,
+        };
+        if storm.is_some() {
+            st.class("retry_storm");
+        }
+        for rep in 0..total_reps {
+            if let Some((gap_after, _)) = storm {
+                if rep == gap_after.min(case.repeats) {
+                    let t = w.clock.now().as_secs() + 3900;
+                    w.clock.set(std::time::Duration::from_secs(t));
+                }
+            }
             // stubs for the channels referenced by this transaction
             let mut chan_idx: Vec<Option<usize>> = vec![None; 3];
             let chan_values = [1_000_000u64, 250_000, 4_000_000];
@@ -343,6 +380,7 @@ impl Prop for C08 {
                         }
                         OutKind::Unknown => (foreign(oi as u8), DerivationPath::master(), false, true, 7),
                         OutKind::UnknownWithPath => (foreign(oi as u8), path_of(3), false, false, 10),
+                        OutKind::WalletAndAllowlisted => (wallet_scripts(90 + oi as u32)[0].clone(), path_of(90 + oi as u32), true, false, 11),
                         OutKind::Channel { .. } => unreachable!(),
                     };
                     outs.push(TxOut { value: Amount::ZERO, script_pubkey: spk });
@@ -505,10 +543,15 @@ impl Prop for C08 {
                 if case.max_feerate != u32::MAX && rate_floor > case.max_feerate as u128 {
                     bad.push("fee-rate-above-maximum");
                 }
-                fee_ledger += nb * 1000;
+                let now = w.clock.now().as_secs();
+                fee_ledger.push((now, nb * 1000));
                 if let Some(l) = case.fee_velocity_sat {
-                    if fee_ledger > l as u128 * 1000 {
+                    let in_window: u128 = fee_ledger.iter().filter(|(t, _)| *t + 82_800 > now).map(|(_, a)| *a).sum();
+                    if in_window > l as u128 * 1000 {
                         bad.push("fee-velocity-exceeded");
+                    }
+                    if storm.is_some() && rep >= case.repeats {
+                        st.class("accepted_during_retry_storm");
                     }
                 }
             }
